@@ -86,7 +86,7 @@ theorem exit_piece (cx : Cx) (o l : Nat) (s s' : St) (hs : SameStk s s') (env : 
     have hit : ItemC cx.cp cx.rs ⟨r, i0⟩ (.ljump ⟨o, Gen.op_jump, []⟩ (some l)) := by simpa using hp.item (d := 0) rfl
     exact ⟨R2.silL (lab_jump hit jump_isJump) hr, LabExport.same (fun _ _ => rfl)⟩
 
-theorem cont_pm (cx : Cx) (fuel : Nat) (env : Src.Env) : PM cx contStmt (fun k b => Src.tr fuel [] env .cont k b) env := by
+theorem cont_pm (cx : Cx) (fuel : Nat) (env : Src.Env) : PM cx contStmt (fun k b => Src.tr fuel cx.sm env .cont k b) env := by
   intro s items s' h
   simp only [contStmt, bind_ok, getSt_ok] at h
   obtain ⟨s0, s1, h1, h2⟩ := h
@@ -109,7 +109,7 @@ theorem cont_pm (cx : Cx) (fuel : Nat) (env : Src.Env) : PM cx contStmt (fun k b
     · obtain ⟨kc, kb, e1, _, r1, _⟩ := hx.loop l.1 l.2 rest hl
       exact ⟨kc, fun k b => by rw [Src.tr]; simp [e1], r1⟩
 
-theorem brkLoop_pm (cx : Cx) (fuel : Nat) (env : Src.Env) : PM cx brkLoopStmt (fun k b => Src.tr fuel [] env .brkLoop k b) env := by
+theorem brkLoop_pm (cx : Cx) (fuel : Nat) (env : Src.Env) : PM cx brkLoopStmt (fun k b => Src.tr fuel cx.sm env .brkLoop k b) env := by
   intro s items s' h
   simp only [brkLoopStmt, bind_ok, getSt_ok] at h
   obtain ⟨s0, s1, h1, h2⟩ := h
@@ -132,7 +132,7 @@ theorem brkLoop_pm (cx : Cx) (fuel : Nat) (env : Src.Env) : PM cx brkLoopStmt (f
     · obtain ⟨kc, kb, _, e2, _, r2⟩ := hx.loop l.1 l.2 rest hl
       exact ⟨kb, fun k b => by rw [Src.tr]; simp [e2], r2⟩
 
-theorem brk_pm (cx : Cx) (fuel : Nat) (env : Src.Env) : PM cx brkStmt (fun k b => Src.tr fuel [] env .brk k b) env := by
+theorem brk_pm (cx : Cx) (fuel : Nat) (env : Src.Env) : PM cx brkStmt (fun k b => Src.tr fuel cx.sm env .brk k b) env := by
   intro s items s' h
   simp only [brkStmt, bind_ok, getSt_ok] at h
   obtain ⟨s0, s1, h1, h2⟩ := h
